@@ -19,8 +19,8 @@ from vt.checks import c01
 PROPERTY = 'C09'
 
 
-def session(ext, addpath):
-    return dict(local_as=65001, peer_as=65002, our_asn4=True, peer_asn4=True, addpath=addpath, extnh=False, extmsg=ext, aigp=True)
+def session(ext, addpath, extnh=False):
+    return dict(local_as=65001, peer_as=65002, our_asn4=True, peer_asn4=True, addpath=addpath, extnh=extnh, extmsg=ext, aigp=True)
 
 
 def v4_prefix(i, mask=24):
@@ -38,13 +38,16 @@ def route_text(fam, i, nh_idx, attrs_text, mask=24):
         return f'route {v4_prefix(i, mask)} next-hop 10.255.0.{1 + nh_idx} {attrs_text}'
     if fam == 'v6':
         return f'route {v6_prefix(i)} next-hop 2001:db8:ffff::{1 + nh_idx:x} {attrs_text}'
+    if fam == 'v4x':
+        # RFC 8950: an IPv4 unicast route behind an IPv6 next hop (extended next hop negotiated) travels in MP_REACH_NLRI
+        return f'route {v4_prefix(i, mask)} next-hop 2001:db8:ffff::{1 + nh_idx:x} {attrs_text}'
     if fam == 'vpn4':
         return f'route {v4_prefix(i, mask)} next-hop 10.255.0.{1 + nh_idx} label [ 100 ] rd 65000:1 {attrs_text}'
     raise core.HarnessError(fam)
 
 
 def abstract_nlri(fam, i, pid, mask=24):
-    if fam == 'v4':
+    if fam in ('v4', 'v4x'):
         a, m = v4_prefix(i, mask).split('/')
         return w.nlri_ip(1, 1, a, int(m), pid)
     if fam == 'v6':
@@ -67,10 +70,10 @@ def attrs_for(pad: int, ncomm: int, padx: bool = False) -> str:
 _S = {}
 
 
-def get(ext, addpath):
-    key = (ext, addpath)
+def get(ext, addpath, extnh=False):
+    key = (ext, addpath, extnh)
     if key not in _S:
-        s = session(ext, addpath)
+        s = session(ext, addpath, extnh)
         _S[key] = c01.get_session(('c09', key), s)[:3] + (s,)
     return _S[key]
 
@@ -170,7 +173,7 @@ def check_messages(msgs, neg_size, ap, want_ann, want_wd, want_attrs):
 
 def run_point(pt):
     """pt: dict(ext, addpath, fams, nh, pad, ncomm, counts{fam:n}, mode, mask)"""
-    neighbor, neg, api, s = get(pt['ext'], pt['addpath'])
+    neighbor, neg, api, s = get(pt['ext'], pt['addpath'], 'v4x' in pt['fams'])
     ap = set(c01.ADDPATH_FAMS) if pt['addpath'] else set()
     attrs_text = attrs_for(pt['pad'], pt['ncomm'], pt.get('padx', False))
     specs_a, specs_w = [], []
@@ -197,11 +200,11 @@ def run_point(pt):
         raise
     except Exception as e:  # noqa: BLE001
         return [(f'exception:{type(e).__name__}', f'{type(e).__name__}: {str(e)[:160]}')], 0
-    famcode = {'v4': (1, 1), 'v6': (2, 1), 'vpn4': (1, 128)}
+    famcode = {'v4': (1, 1), 'v4x': (1, 1), 'v6': (2, 1), 'vpn4': (1, 128)}
     want_ann, want_wd = {}, set()
     for fam, i, nh, mask in specs_a:
         pid = 0 if famcode[fam] in ap else None
-        want_ann[w.nlri_key(abstract_nlri(fam, i, pid, mask))] = (f'10.255.0.{1 + nh}' if fam != 'v6' else f'2001:db8:ffff::{1 + nh:x}')
+        want_ann[w.nlri_key(abstract_nlri(fam, i, pid, mask))] = (f'10.255.0.{1 + nh}' if fam not in ('v6', 'v4x') else f'2001:db8:ffff::{1 + nh:x}')
     for fam, i, nh, mask in specs_w:
         pid = 0 if famcode[fam] in ap else None
         want_wd.add(w.nlri_key(abstract_nlri(fam, i, pid, mask)))
@@ -214,9 +217,9 @@ def run_point(pt):
     return viols, len(msgs)
 
 
-def probe_overhead(ext, addpath, fam, pad, ncomm, mask, padx=False):
+def probe_overhead(ext, addpath, fam, pad, ncomm, mask, padx=False, fams_x=False):
     """Size of a one-route message -> (fixed overhead, per-prefix size) measured on the implementation."""
-    neighbor, neg, api, s = get(ext, addpath)
+    neighbor, neg, api, s = get(ext, addpath, fams_x)
     a = attrs_for(pad, ncomm, padx)
     one = generate(neg, build(neighbor, api, [(fam, 1, 0, mask)], a), [])
     two = generate(neg, build(neighbor, api, [(fam, 1, 0, mask), (fam, 2, 0, mask)], a), [])
@@ -231,12 +234,12 @@ def grid(tier):
     for ext in (False, True):
         size = 65535 if ext else 4096
         for addpath in (False, True):
-            for fams in (('v4',), ('v6',), ('vpn4',), ('v4', 'v6'), ('v4', 'v6', 'vpn4')):
+            for fams in (('v4',), ('v6',), ('vpn4',), ('v4', 'v6'), ('v4', 'v6', 'vpn4'), ('v4x',), ('v4', 'v4x')):
                 for mask in ((24, 32) if fams == ('v4',) else (24,)):
                     for nh in (1, 2):
                         if nh == 2 and len(fams) > 2:
                             continue
-                        pads = range(0, 10) if (not ext and fams in (('v4',), ('v6',), ('vpn4',))) else (0, 3)
+                        pads = range(0, 10) if (not ext and fams in (('v4',), ('v6',), ('vpn4',), ('v4x',))) else (0, 3)
                         if ext and tier == 'quick':
                             pads = (0,)
                         for pad in pads:
@@ -258,7 +261,7 @@ def worker(args):
         fits = {}
         skip = False
         for fam in g['fams']:
-            o = probe_overhead(g['ext'], g['addpath'], fam, g['pad'], g['ncomm'], g['mask'], g.get('padx', False))
+            o = probe_overhead(g['ext'], g['addpath'], fam, g['pad'], g['ncomm'], g['mask'], g.get('padx', False), 'v4x' in g['fams'])
             if o is None:
                 skip = True
                 break
